@@ -36,10 +36,17 @@ func c05Teardown(idx int, seed uint64) {
 		}
 		return c
 	}
+	// a PINGREQ that went unanswered while the publisher was held up is answered later: the barrier is
+	// "as many PINGRESPs as PINGREQs sent", not "one more than before"
+	var pmu sync.Mutex
+	sent := map[*rawclient.Client]int{}
 	pingOK := func(c *rawclient.Client, d time.Duration) bool {
-		n := countType(c.Log(), rc.PINGRESP)
+		pmu.Lock()
+		sent[c]++
+		n := sent[c]
+		pmu.Unlock()
 		c.SendPacket(&rc.Packet{Type: rc.PINGREQ})
-		return c.WaitFor(func(l []rawclient.Event, closed bool) bool { return countType(l, rc.PINGRESP) > n }, d) == nil
+		return c.WaitFor(func(l []rawclient.Event, closed bool) bool { return countType(l, rc.PINGRESP) >= n }, d) == nil
 	}
 	wit := connect("witness", nil)
 	if wit == nil {
